@@ -5,18 +5,21 @@ SPEC = {
     'claimed': True,
     'theorems': ['C29_crash_consistent_partial', 'C29_resume_same_final_partial',
                  'C29_history_crash_consistent_partial', 'C29_history_resume_partial',
-                 'C29_redeliver_same_final_partial', 'C29_example_history', 'C29_split_batch_unsafe'],
+                 'C29_redeliver_same_final_partial', 'C29_example_history', 'C29_split_batch_unsafe',
+                 'C29_connect_is_one_unit', 'C29_disconnect_is_one_unit', 'C29_log_one_unit_per_op'],
     'allowed_axioms': [],
     'shard': 12,
     'rule': 'a factory test node builds executed block trees rooted at the genesis block (one coins transfer to a '
-            'fresh address per block, so every block has its own state root). A history = tree + delivery order. '
+            'fresh address per block, so every block has its own state root; a BIG block has 1500 / 2800 `none` '
+            'transactions beside it). A history = tree + delivery order. '
             'Per history one child process delivers the whole order to a node whose blockchain and store databases '
             'are the fault-injecting goleveldb wrapper "crashleveldb" (registered from the harness through '
             'RegisterDBCreatorVerif; it serialises and counts Set/SetSync/Delete/DeleteSync/Batch.Write/Tx.Commit '
             'over both databases, records every completed write and os.Exit(77)s before - or after - the N-th), '
             'never crashes and stops without closing anything. Then per crash point a child on a fresh data '
             'directory is terminated at that write, and another child starts a node on the same directory, reads '
-            'height, last header, view tip, hash/header/block at every height up to height+3, GetTx / stored td / '
+            'height, last header, view tip, hash/header/block at every height up to height+3, GetTx of EVERY transaction '
+            '(folded per block: one height, none, or "they disagree") / stored td / '
             'LoadBlockByHash / sequence-by-hash of every block of the tree, the state keys touched by any block at '
             'the tip\'s state hash (compared with the factory\'s values), and the sequence log; then it delivers the '
             'whole order again and reads everything once more. Histories: (1) genesis + 2 blocks (thorough 4): every '
@@ -25,7 +28,16 @@ SPEC = {
             'thorough: all); (3) random trees satisfying the C25 guard (trunk 12-15, 2-3 branches, one overtaking, '
             'varied difficulty bits) delivered nearly in order with local swaps (orphans) and re-deliveries: last 12 '
             'boundaries (thorough: 38 such histories, every boundary of every fourth). Every 5th-7th boundary '
-            'also in "after" mode; plus the end point (history complete, process stops). One case = one crash '
+            'also in "after" mode; (4) BIG blocks, whose connect / disconnect batch is larger than the 1 MiB at '
+            'which neighbouring code (reduce.go, prune.go) flushes its batches - the harness computes the batch size '
+            'from the trace and fails when it is below 1.1 MiB: (4a) block 1 small, block 2 with 1501 transactions '
+            '(connect batch 12 000 KVs, 1.7 MB), block 3 small: every boundary from the big block\'s store to the '
+            'end, the writes of the big block also in "after" mode; (4b) trunk of 13 whose tip has 2801 '
+            'transactions (disconnect batch 1.15 MB of keys), detached by a branch of 3 from height 11: the '
+            'boundaries of the disconnect writes up to the first state commit of the branch, before and after. The '
+            'crash points of (4) are taken from the writes the node really made, so a connect or disconnect that '
+            'takes several writes gets a crash point between any two of them. '
+            'Plus the end point of every history (history complete, process stops). One case = one crash '
             'point. kinds = history/mode-next write. non-trivial = at least one write of the history is lost; '
             'distinct = distinct Gallina case terms',
     'trusted_base': [
@@ -33,7 +45,10 @@ SPEC = {
         'crash states are the prefixes of the log of write units; torn or reordered writes and loss of unsynced '
         'writes on power failure are outside the model (the injected fault is process termination)',
         'the harness classifies the keys of every write into the model\'s facts (blockLastHeight, Height:, TD:, '
-        'TX:, Seq:, HashToSeq:, LastSequence, the header/body/receipt table rows, flags, state tree nodes); keys of '
+        'TX:, Seq:, HashToSeq:, LastSequence, the header/body/receipt table rows, flags, state tree nodes), one '
+        'unit per write the database wrapper saw; the TX: records of one write become the model\'s single FTx of '
+        'a block only when the write holds the record of EVERY transaction of the block with one height (or '
+        'deletes every one), a part of them is FOther; keys of '
         'the per-address transaction lists and counters, fee totals, short-hash markers, executor local records and '
         'the para-chain title table are not part of the property\'s records and are dropped; anything else '
         'becomes FOther, which equals nothing',
@@ -66,7 +81,7 @@ SPEC = {
                       'block rows, tx index, total difficulties and the states of the chain agree; start-up succeeds; '
                       'resuming ends in the uninterrupted run\'s chain), assuming each LevelDB write is atomic and '
                       'durable; the Go node is killed at every write boundary of generated growth and '
-                      'reorganisation histories and restarted: its writes equal the model\'s log prefix and its '
+                      'reorganisation histories (including blocks whose batches exceed 1 MiB) and restarted: its writes equal the model\'s log prefix unit by unit and its '
                       'recovered and resumed records equal the model\'s and satisfy the spec oracle',
         'level_note': 'LevelDB write atomicity/durability assumed; fault = process termination between writes; '
                       'execution is an oracle; re-delivery after restart is proved at the level of the C25 fork-choice '
